@@ -11,14 +11,18 @@ out.append("**Independent seeded changes** (`/verif/seeded/<id>/`: patch.diff, d
 out.append("| id | property | what it breaks | needs | caught by | check strengthened because of it |")
 out.append("|---|---|---|---|---|---|")
 n = miss = 0
+uncaught = []
 for f in sorted(glob.glob(os.path.join(HERE, "seeded", "*", "meta.json"))):
     m = json.load(open(f)); i = os.path.basename(os.path.dirname(f)); n += 1
     if m.get("strengthened"): miss += 1
+    if not m["caught_by"]: uncaught.append(i)
     out.append("| %s | %s | %s | %s | %s | %s |" % (i, m["property"], m["breaks"].replace("|", "/"),
                m["needs"].replace("|", "/"), ("; ".join(m["caught_by"]) or "**not caught** (" + m.get("not_caught", "")[:160] + " ...)"), m.get("strengthened") or "—"))
 out.append("")
 out.append("%d seeded changes; %d were caught by the checks as they stood, %d were first missed (by the owning "
-           "check) and led to the extensions listed in the last column; all %d are caught now.\n" % (n, n - miss, miss, n))
+           "check) and led to the extensions listed in the last column; %d are caught now, %d are not (%s; the reason "
+           "is in the 'caught by' column and in §10.2).\n"
+           % (n, n - miss - len(uncaught), miss, n - len(uncaught), len(uncaught), ", ".join(uncaught)))
 p = os.path.join(HERE, "selftest_sensitivity.json")
 if os.path.exists(p):
     r = json.load(open(p)); mu = r["mutants"]
